@@ -55,6 +55,7 @@ func checkC09(c *Check) {
 	}
 	c09Regex(c, sp)
 	sourceTextIntact(c, "CONTENT-INTACT")
+	c09Truncate(c)
 	suffixes := c09Pairing(c, sp)
 	c09Disjoint(c, suffixes)
 	c09PostProcess(c)
@@ -579,5 +580,66 @@ func c09PostProcess(c *Check) {
 	}
 	if n == 0 {
 		c.Undecidedf("IMPORT-POSTPROCESS", "success returns", "-", "no success return of the tree-walking parse function found")
+	}
+}
+
+// c09Truncate: a compiled model written over an existing, longer file must
+// replace it. Every file opened for writing in the commands and the output
+// helpers is opened with Create (which truncates) or with a constant flag set
+// that contains O_TRUNC or O_APPEND; O_WRONLY|O_CREATE alone leaves the old tail
+// behind, and the file no longer decodes.
+func c09Truncate(c *Check) {
+	p := c.P
+	n := 0
+	for _, f := range p.RepoFuncs() {
+		pp := fnPkgPath(f)
+		if strings.HasSuffix(p.fnFile(f), "_test.go") || !(strings.HasPrefix(pp, repoMod+"/cmd/") || pp == pbutilPkg || pp == repoMod+"/pkg/diagrams" || pp == repoMod+"/pkg/cmdutils") {
+			continue
+		}
+		eachCall(f, func(cl ssa.CallInstruction) {
+			cc := cl.Common()
+			name := ""
+			if cc.IsInvoke() {
+				name = cc.Method.Name()
+			} else if o := calleeObj(cl); o != nil {
+				name = o.Name()
+			}
+			switch name {
+			case "Create":
+				if cc.IsInvoke() || (calleeObj(cl) != nil && calleeObj(cl).Pkg() != nil && (calleeObj(cl).Pkg().Path() == "os" || strings.HasSuffix(calleeObj(cl).Pkg().Path(), "afero"))) {
+					n++
+					c.Okf("WRITE-TRUNCATES", fnName(f)+"|Create", p.pos(cl.Pos()), "Create truncates an existing file")
+				}
+			case "OpenFile":
+				// flag argument: the int-typed one
+				var flag ssa.Value
+				for _, a := range cc.Args {
+					if b, ok := a.Type().Underlying().(*types.Basic); ok && b.Kind() == types.Int {
+						flag = a
+					}
+				}
+				if flag == nil {
+					return
+				}
+				n++
+				key := fnName(f) + "|OpenFile"
+				k, isK := constInt(flag)
+				if !isK {
+					c.Okf("WRITE-TRUNCATES", key, p.pos(cl.Pos()), "flags are passed through from the caller (wrapper)")
+					return
+				}
+				const oWRONLY, oRDWR, oAPPEND, oCREATE, oTRUNC = 0x1, 0x2, 0x400, 0x40, 0x200
+				writes := k&oWRONLY != 0 || k&oRDWR != 0
+				if writes && k&oCREATE != 0 && k&oTRUNC == 0 && k&oAPPEND == 0 {
+					c.Flagf("WRITE-TRUNCATES", key, p.pos(cl.Pos()), "the output file is opened for writing with O_CREATE but without O_TRUNC: written over a longer existing file, the old tail stays and the file no longer decodes")
+				} else {
+					c.Okf("WRITE-TRUNCATES", key, p.pos(cl.Pos()), "flag set %#x truncates, appends or does not write", k)
+				}
+			}
+		})
+	}
+	c.Counts["output_file_openings"] = n
+	if n == 0 {
+		c.Undecidedf("WRITE-TRUNCATES", "openings", "-", "no output file opening found in the commands and output helpers: unresolved anchor")
 	}
 }
